@@ -1,7 +1,8 @@
 (* C32 — page operations on the page-tree model of C33/Pages.v.  Executable Gallina only; NO proofs.
    Transcribed from pkg/pdfcpu/model/xreftable.go (InsertBlankPages / insertBlankPagesDepth /
    appendBlankPageForPage / emptyPage), pkg/pdfcpu/rotate.go (RotatePages / composePageRotation),
-   pkg/pdfcpu/model/box.go (AddPageBoundaries / RemovePageBoundaries / Crop with explicit rectangles),
+   pkg/pdfcpu/model/box.go (AddPageBoundaries / applyBoxDefinitions / ApplyBox / RemovePageBoundaries /
+   Crop with explicit rectangles and with absolute margins relative to the parent box),
    pkg/api/page.go, trim.go, collect.go (RemovePages / Trim / Collect = ExtractPages of a page list). *)
 From Coq Require Import ZArith List Bool.
 From PV Require Import Lib.GoInt C33.Pages.
@@ -54,14 +55,40 @@ Definition pf_rotate (delta : Z) (d : pageD) (e : attrs) : pageD :=
   let o := pg_attrs d in
   set_attrs d (mkAttrs (Some (compose_rot (rot_of e) delta)) (a_media o) (a_crop o) (a_res o)).
 
-(* AddPageBoundaries with explicit rectangles: d.Update(boxName, rect) for every requested box *)
+(* A box definition (model.Box): an explicit rectangle, or margins (left, right, top, bottom, absolute,
+   >= 0) applied to a PARENT box.  ApplyBox:  Rect -> the rectangle;
+   margins -> [parent.LL.X+mLeft, parent.LL.Y+mBot, parent.UR.X-mRight, parent.UR.Y-mTop]. *)
+Inductive boxdef := BRect (r : rect) | BMarg (l r t b : Z).
+Definition apply_def (bd : boxdef) (parent : rect) : rect :=
+  match bd with
+  | BRect r => r
+  | BMarg ml mr mt mb => let '(x0, y0, x1, y1) := parent in (x0 + ml, y0 + mb, x1 - mr, y1 - mt)
+  end.
+Definition opt_def (o : option boxdef) (parent : rect) (old : option rect) : option rect :=
+  match o with Some bd => Some (apply_def bd parent) | None => old end.
+
+(* AddPageBoundaries / applyBoxDefinitions (definitions without RefBox):
+     boxes := {mediaBox: inhPAttrs.MediaBox, cropBox: inhPAttrs.CropBox, ...}
+     parentBox := b.mediaBox
+     if pb.Media != nil { b.mediaBox = ApplyBox("MediaBox", pb.Media, d, parentBox) }
+     if pb.Crop  != nil { b.cropBox  = ApplyBox("CropBox",  pb.Crop,  d, parentBox) }
+     if b.cropBox != nil { parentBox = b.cropBox }          <- the page's EFFECTIVE crop box, defined now,
+     Trim / Bleed / Art: ApplyBox(name, def, d, parentBox)      earlier on the page, or inherited
+   The media box in effect before the call is the parent of Media and Crop. *)
 Record boxreq := mkBoxReq {
-  b_media : option rect; b_crop : option rect; b_trim : option rect; b_bleed : option rect; b_art : option rect }.
+  b_media : option boxdef; b_crop : option boxdef; b_trim : option boxdef;
+  b_bleed : option boxdef; b_art : option boxdef }.
+Definition media_parent (e : attrs) : rect :=
+  match a_media e with Some m => m | None => a4 end.   (* None: unreachable for pages with a MediaBox *)
 Definition pf_addbox (b : boxreq) (d : pageD) (e : attrs) : pageD :=
   let o := pg_attrs d in
+  let m := media_parent e in
+  let crop_b := opt_def (b_crop b) m (a_crop e) in               (* b.cropBox after the crop definition *)
+  let parent := match crop_b with Some c => c | None => m end in
   mkPage (pg_id d)
-    (mkAttrs (a_rot o) (orelse (b_media b) (a_media o)) (orelse (b_crop b) (a_crop o)) (a_res o))
-    (orelse (b_trim b) (pg_trim d)) (orelse (b_bleed b) (pg_bleed d)) (orelse (b_art b) (pg_art d)).
+    (mkAttrs (a_rot o) (opt_def (b_media b) m (a_media o)) (opt_def (b_crop b) m (a_crop o)) (a_res o))
+    (opt_def (b_trim b) parent (pg_trim d)) (opt_def (b_bleed b) parent (pg_bleed d))
+    (opt_def (b_art b) parent (pg_art d)).
 
 (* RemovePageBoundaries: CropBox: delete the page's own entry; if it had none, CropBox := effective MediaBox;
    Trim/Bleed/Art: delete *)
@@ -130,7 +157,7 @@ Inductive op :=
 | ORotate (sel : list Z) (delta : Z)
 | OAddBox (sel : list Z) (b : boxreq)
 | ORmBox (sel : list Z) (q : rmreq)
-| OCrop (sel : list Z) (r : rect).
+| OCrop (sel : list Z) (bd : boxdef).
 
 Definition all_pages (t : tree) : list Z := page_range 1 (count_of t).
 
@@ -150,7 +177,7 @@ Definition apply_op (o : op) (t : tree) : res tree :=
   | ORotate sel delta => if Z.rem delta 90 =? 0 then Ok (upd_op sel (pf_rotate delta) t) else Err
   | OAddBox sel b => Ok (upd_op sel (pf_addbox b) t)
   | ORmBox sel q => Ok (upd_op sel (pf_rmbox q) t)
-  | OCrop sel r => Ok (upd_op sel (pf_addbox (mkBoxReq None (Some r) None None None)) t)
+  | OCrop sel bd => Ok (upd_op sel (pf_addbox (mkBoxReq None (Some bd) None None None)) t)   (* Crop: ApplyBox("CropBox", b, d, inhPAttrs.MediaBox) *)
   end.
 
 Fixpoint run (ops : list op) (t : tree) : res tree :=
@@ -206,4 +233,44 @@ Fixpoint spec_run (ops : list op) (ids : list Z) : option (list Z) :=
   match ops with
   | [] => Some ids
   | o :: r => match spec_op o ids with Some ids' => spec_run r ids' | None => None end
+  end.
+
+(* ---------- view-level specification of rotate / add boxes / crop and of their sequences ---------- *)
+Definition set_rot (v : vpage) (r : Z) : vpage :=
+  mkV (v_id v) r (v_media v) (v_crop v) (v_trim v) (v_bleed v) (v_art v).
+Definition vf_rotate (delta : Z) (v : vpage) : vpage := set_rot v (compose_rot (v_rot v) delta).
+
+(* add boxes on an observable page: Media and Crop are defined relative to the media box in effect;
+   Trim, Bleed and Art relative to the EFFECTIVE CROP BOX if the page has one (defined in this call,
+   earlier, or inherited) and to the media box otherwise *)
+Definition vf_addbox (b : boxreq) (v : vpage) : vpage :=
+  let m := match v_media v with Some m => m | None => a4 end in
+  let crop' := opt_def (b_crop b) m (v_crop v) in
+  let parent := match crop' with Some c => c | None => m end in
+  mkV (v_id v) (v_rot v) (opt_def (b_media b) m (v_media v)) crop'
+      (opt_def (b_trim b) parent (v_trim v)) (opt_def (b_bleed b) parent (v_bleed v))
+      (opt_def (b_art b) parent (v_art v)).
+
+Definition op_vf (o : op) : option (list Z * (vpage -> vpage)) :=
+  match o with
+  | ORotate sel delta => if Z.rem delta 90 =? 0 then Some (sel, vf_rotate delta) else None
+  | OAddBox sel b => Some (sel, vf_addbox b)
+  | OCrop sel bd => Some (sel, vf_addbox (mkBoxReq None (Some bd) None None None))
+  | _ => None
+  end.
+
+Fixpoint vupd_list (sel : Z -> bool) (vf : vpage -> vpage) (p : Z) (l : list vpage) : list vpage :=
+  match l with
+  | [] => []
+  | v :: r => (if sel (p + 1) then vf v else v) :: vupd_list sel vf (p + 1) r
+  end.
+
+(* a history of rotate / add-boxes / crop steps folded over the observable page list *)
+Fixpoint vspec_run (ops : list op) (l : list vpage) : option (list vpage) :=
+  match ops with
+  | [] => Some l
+  | o :: r => match op_vf o with
+              | Some (sel, vf) => vspec_run r (vupd_list (selb sel) vf 0 l)
+              | None => None
+              end
   end.
